@@ -234,6 +234,13 @@ func c08Mutations() []propMut {
 			must(err)
 			return [][]byte{tx}, true
 		}},
+		{"signature-forged-under-the-authors-key", func(w *enga.World) ([][]byte, bool) {
+			// names the proposer's account and public key; only the signature bytes are another key's
+			forger := sim.NewKey("forger")
+			tx, _, err := w.N.BuildEthBlockTx(sim.EthBlockOpts{ForgeWith: &forger})
+			must(err)
+			return [][]byte{tx}, true
+		}},
 		{"signed-by-other-key", func(w *enga.World) ([][]byte, bool) {
 			other := w.N.Cfg.Vals[1].Key
 			tx, _, err := w.N.BuildEthBlockTx(sim.EthBlockOpts{Signer: &other})
@@ -249,10 +256,14 @@ func c08Mutations() []propMut {
 		// sees the last 32 / 20 bytes, so it answers VALID - the proposal still does not carry the
 		// recorded beacon root / parent / proposer
 		payloadMut("beacon-root-33-bytes", func(p *goatmodtypes.ExecutionPayload) { p.BeaconRoot = append([]byte{1}, p.BeaconRoot...) }, false),
-		payloadMut("beacon-root-64-bytes", func(p *goatmodtypes.ExecutionPayload) { p.BeaconRoot = append(bytes.Repeat([]byte{0}, 32), p.BeaconRoot...) }, false),
+		payloadMut("beacon-root-64-bytes", func(p *goatmodtypes.ExecutionPayload) {
+			p.BeaconRoot = append(bytes.Repeat([]byte{0}, 32), p.BeaconRoot...)
+		}, false),
 		payloadMut("parent-hash-33-bytes", func(p *goatmodtypes.ExecutionPayload) { p.ParentHash = append([]byte{1}, p.ParentHash...) }, false),
 		payloadMut("fee-recipient-21-bytes", func(p *goatmodtypes.ExecutionPayload) { p.FeeRecipient = append([]byte{1}, p.FeeRecipient...) }, false),
-		payloadMut("fee-recipient-32-bytes", func(p *goatmodtypes.ExecutionPayload) { p.FeeRecipient = append(bytes.Repeat([]byte{0}, 12), p.FeeRecipient...) }, false),
+		payloadMut("fee-recipient-32-bytes", func(p *goatmodtypes.ExecutionPayload) {
+			p.FeeRecipient = append(bytes.Repeat([]byte{0}, 12), p.FeeRecipient...)
+		}, false),
 		payloadMut("zero-gas-requests", func(p *goatmodtypes.ExecutionPayload) { p.Requests = nil }, true),
 		payloadMut("two-gas-requests", func(p *goatmodtypes.ExecutionPayload) { p.Requests = gasReq(2) }, true),
 		payloadMut("undecodable-requests", func(p *goatmodtypes.ExecutionPayload) { p.Requests = [][]byte{{0x63, 1, 2, 3}} }, true),
@@ -293,6 +304,18 @@ func c08Mutations() []propMut {
 			return [][]byte{tx}, true
 		}},
 		payloadMut("block-hash-not-matching", func(p *goatmodtypes.ExecutionPayload) { p.GasUsed += 5 }, false), // engine answers INVALID
+		{"other-content-under-the-hash-this-instance-just-verified", func(w *enga.World) ([][]byte, bool) {
+			// round 0: the well-formed proposal is verified (engine: VALID) by this very instance;
+			// round 1: another payload claims the same block hash - only the engine can tell
+			t1, _, err := w.N.BuildEthBlockTx(sim.EthBlockOpts{})
+			must(err)
+			if pr, err := w.N.Process(&sim.Block{TimeDelta: time.Second}, [][]byte{t1}); err != nil || pr.Status != abci.ResponseProcessProposal_ACCEPT {
+				return nil, false
+			}
+			t2, _, err := w.N.BuildEthBlockTx(sim.EthBlockOpts{MutatePayload: func(p *goatmodtypes.ExecutionPayload) { p.GasUsed += 5; p.StateRoot = bytes.Repeat([]byte{3}, 32) }})
+			must(err)
+			return [][]byte{t2}, true
+		}},
 		{"timeout-height+1", func(w *enga.World) ([][]byte, bool) {
 			th := uint64(w.N.Height + 2)
 			tx, _, err := w.N.BuildEthBlockTx(sim.EthBlockOpts{TimeoutHeight: &th})
@@ -337,7 +360,7 @@ func c08Mutations() []propMut {
 var bigZero = newBig(0)
 
 var c08MustNotMoveHead = map[string]bool{"block-message-missing": true, "block-message-shares-its-transaction": true, "authored-by-other-validator": true,
-	"signed-by-other-key": true, "wrong-fee-recipient": true, "wrong-parent-hash": true, "number+1": true, "number-1": true, "wrong-beacon-root": true, "beacon-root-33-bytes": true, "beacon-root-64-bytes": true, "parent-hash-33-bytes": true, "fee-recipient-21-bytes": true, "fee-recipient-32-bytes": true,
+	"signed-by-other-key": true, "signature-forged-under-the-authors-key": true, "wrong-fee-recipient": true, "wrong-parent-hash": true, "number+1": true, "number-1": true, "wrong-beacon-root": true, "beacon-root-33-bytes": true, "beacon-root-64-bytes": true, "parent-hash-33-bytes": true, "fee-recipient-21-bytes": true, "fee-recipient-32-bytes": true,
 	"due-system-txs-omitted": true, "one-due-system-tx-omitted": true, "zero-gas-requests": true, "two-gas-requests": true, "undecodable-requests": true, "short-request": true, "invented-system-tx": true,
 	"extra-data-32-bytes": true, "timeout-height+1": true, "timeout-height-0": true, "memo": true, "nil-payload": true}
 
@@ -364,6 +387,11 @@ func c08Converse(r *mc.Run, w *enga.World, path []enga.ABlock) {
 			viol("ill-formed-proposal-accepted:"+m.name, "ProcessProposal answered ACCEPT")
 		} else {
 			r.Outcome("mutant-rejected")
+			why := x.N.LoggedErrors()
+			if perr != nil {
+				why = perr.Error()
+			}
+			r.Reason(m.name, why)
 		}
 		if len(txs) > 0 {
 			fr, ferr := x.N.Finalize(blk, txs)
@@ -390,7 +418,7 @@ func runC08(r *mc.Run) {
 		r.SetBudget(170 * 1e9)
 	}
 	r.Bounds["depth_blocks"] = depth
-	r.Rule = "at every state of a tree search over block histories (2 validators, relayer proposer + 1 voter; menu with queue-filling events, unlock maturity, elections): (honest) for 8 mempool classes the real PrepareProposal output must be ACCEPTed by a second replica, carry <= 16 txs and its execution-block message must succeed in FinalizeBlock; (converse) 35 single mutations of a well-formed proposal must be rejected by ProcessProposal and must not move the head when finalised anyway; (schedules, races) see schedule_* keys"
+	r.Rule = "at every state of a tree search over block histories (2 validators, relayer proposer + 1 voter; menu with queue-filling events, unlock maturity, elections): (honest) for 8 mempool classes the real PrepareProposal output must be ACCEPTed by a second replica, carry <= 16 txs and its execution-block message must succeed in FinalizeBlock; (converse) 37 single mutations of a well-formed proposal must be rejected by ProcessProposal and must not move the head when finalised anyway; (schedules, races) see schedule_* keys"
 	r.Assumptions = []string{"validators' clocks are not behind the proposer's", "ELSim canonical mode defines the well-behaved execution layer"}
 	var explore func(r *mc.Run, only []enga.ABlock)
 	explore = func(r *mc.Run, only []enga.ABlock) {
